@@ -41,6 +41,12 @@ Three facts, regenerated from the source under test on every run:
    `run` with the console on and an executor payload that cannot be rendered returns its SUCCESS result
    (`c07_current_source_renders_safely`).  Any exception during these probes yields `false`.
 
+7. `cacheLookup`: what the real cache look-up does with an entry, by EVALUATION under a virtual clock: a request is answered
+   under gate logic g1 (its result is cached), `loop.gate_logic = g2` is assigned, the clock advances by TTL-1 / TTL / TTL+1
+   microseconds and the same prompt is asked again; the row records whether the reply was served from the cache without
+   consulting an agent.  `c07_cache_lookup_table_agrees` proves the model's `checkCache` equal on all 6 x 6 x 3 rows
+   (served iff strictly within the TTL AND decided under the logic configured now).
+
 Fail closed: anything unexpected (import error, unknown action string, counters moving in an unforeseen way,
 a verdict used in another way) yields `ok := false` and empty tables, which makes `c07_gate_table_*` /
 `c08_run_classification_table` fail to check.
@@ -203,6 +209,40 @@ def safe_rendering_probes(L, T):
     except Exception:  # noqa
         printing = False
     return handler, printing
+
+
+CACHE_TTL_US = 5_000_000
+
+
+def cache_lookup_rows(L, T):
+    """(g1, g2, age in us, ttl in us, served from the cache) on the real run(), virtual clock"""
+    import datetime as _dt
+    from ..util import FakeClock
+    rows = []
+    for g1 in L.GateLogic:
+        for g2 in L.GateLogic:
+            for age in (CACHE_TTL_US - 1, CACHE_TTL_US, CACHE_TTL_US + 1):
+                clock = FakeClock()
+                L.datetime = clock.datetime_class()
+                loop = _mk_loop(L, g1, enable_circuit_breaker=False, cache_ttl_seconds=CACHE_TTL_US / 1e6)
+                if loop.cache_ttl != _dt.timedelta(microseconds=CACHE_TTL_US):
+                    raise Unrecognised("cache_ttl is not the timedelta of the constructor argument")
+                loop.executor.next = T.ActionProtein("EXECUTE", "p", 0.5)
+                loop.assessor.next = T.ActionProtein("PERMIT", "p", 0.5)
+                prompt = f"E2 cache probe {g1.value} {g2.value} {age}"
+                with contextlib.redirect_stdout(io.StringIO()):
+                    first = loop.run(prompt)
+                if first.cached or loop.executor.n != 1:
+                    raise Unrecognised("first request of the cache probe was not answered by the agents")
+                loop.gate_logic = g2
+                clock.advance_us(age)
+                with contextlib.redirect_stdout(io.StringIO()):
+                    second = loop.run(prompt)
+                served = second.cached is True
+                if served != (loop.executor.n == 1):
+                    raise Unrecognised("cached flag and agent consultation disagree")
+                rows.append((g1.value, g2.value, age, CACHE_TTL_US, served))
+    return rows
 
 
 def gate_rows(L, T):
@@ -406,7 +446,7 @@ def carried_state(L, T):
 
 
 def render(ok, rows, tokens_ok, lits, shape_ok, rc, carried=None, why="", rendered=(), unrenderable=(),
-           safe=(False, False)) -> str:
+           safe=(False, False), cache_rows=()) -> str:
     L = ["import Operon.Model.Cffl",
          "/-! GENERATED by harness/vf/extract/e2.py from operon_ai/topology/loops.py — do not edit.",
          "    Regenerated on every run of the C07 / C08 checks; the committed copy is the snapshot of the clean tree. -/",
@@ -460,6 +500,12 @@ def render(ok, rows, tokens_ok, lits, shape_ok, rc, carried=None, why="", render
     L.append("/-- the real `run` with the console on returns the SUCCESS whose executor payload cannot be rendered -/")
     L.append(f"def printRendersSafely : Bool := {_b(safe[1])}")
     L.append("")
+    L.append("/-- the real cache look-up: (gate logic the cached result was decided under, gate logic configured at the repeat,")
+    L.append("    age of the entry in us, TTL in us, served from the cache without consulting an agent) -/")
+    L.append("def cacheLookup : List (Gate × Gate × Nat × Int × Bool) := [")
+    L.append(",\n".join(f"  ({GATE_LEAN[a]}, {GATE_LEAN[b]}, {age}, {ttl}, {_b(hit)})" for (a, b, age, ttl, hit) in cache_rows))
+    L.append("]")
+    L.append("")
     L.append("end Operon.Gen.GateTable")
     return "\n".join(L) + "\n"
 
@@ -482,9 +528,10 @@ def extract():
             carried_err = f"{type(e).__name__}: {e}"[:200]
         L.datetime = saved_dt
         safe = safe_rendering_probes(L, T)
+        cache_rows = cache_lookup_rows(L, T)
         L.datetime = saved_dt
         text = render(True, rows, tokens_ok, lits, shape_ok, rc, carried, rendered=gate_rows.rendered,
-                      unrenderable=gate_rows.unrenderable, safe=safe)
+                      unrenderable=gate_rows.unrenderable, safe=safe, cache_rows=cache_rows)
         note = (f"{len(rows)} gate rows, {len(rc)} run-classification rows, literals {lits}"
                 + (f", OTHER USES of action_type: {sorted(TStr.other)}" if TStr.other else "")
                 + (f", {sum(1 for u in gate_rows.unrenderable if u[3] is None)} gate rows RAISE / DIFFER on unrenderable "
@@ -493,6 +540,10 @@ def extract():
                 + (f", state carried across phases of run(): {carried}" if carried is not None
                    else f", CARRIED-STATE OBSERVATION FAILED: {carried_err}"))
     except Exception as e:  # fail closed
+        try:
+            L.datetime = saved_dt
+        except Exception:  # noqa
+            pass
         why = f"{type(e).__name__}: {e}".replace("\n", " ")[:200].replace("-/", "- /")
         text = render(False, [], False, [], False, [], None, why)
         note = "UNRECOGNISED: " + why + " | " + traceback.format_exc()[-300:]
